@@ -914,14 +914,18 @@ def run_overlap(case):
                     return True
         return fn
 
+    ov = case.get('v', 0)              # opt-in knobs of kind 'ncoverlap': verbosity and io.capture of every task
     for a in all_acts:
-        tasks[a] = task.Task('t%d' % a, [mk(a)], verbosity=0)
+        if 'cap' in case:
+            tasks[a] = task.Task('t%d' % a, [mk(a)], verbosity=ov, io={'capture': case['cap']})
+        else:
+            tasks[a] = task.Task('t%d' % a, [mk(a)], verbosity=0)
 
     def thread_body(acts):
         for a in acts:
             if not go[a].wait(T):
                 return
-            call(lambda: tasks[a].execute(task.Stream(0)))
+            call(lambda: tasks[a].execute(task.Stream(ov)))
             ack.put(('ended', a))
 
     problem = None
@@ -970,6 +974,21 @@ def overlap_evs(case):
             evs.append(['write', st[1], st[2]])
         else:
             evs += [['restore', st[1]], ['read', st[1]]]
+    return evs
+
+
+def overlap_mode_evs(case, chan):
+    """the steps of the schedule when every execution has io.capture off"""
+    v = case.get('v', 0)
+    on = (v not in (0, 1)) if chan == 'o' else (v != 0)
+    evs = []
+    for st in case['schedule']:
+        if st[0] == 'start':
+            evs += [['getlive', st[1], on], ['swapNC', st[1]]]
+        elif st[0] == 'w':
+            evs.append(['write', st[1], st[2]])
+        else:
+            evs.append(['restoreNC', st[1]])
     return evs
 
 
